@@ -30,9 +30,9 @@ const (
 	kFresh
 )
 
-func mk(k, i int) root    { return root(k)<<40 | root(i) }
-func (r root) kind() int  { return int(r >> 40) }
-func (r root) idx() int   { return int(r & (1<<40 - 1)) }
+func mk(k, i int) root     { return root(k)<<40 | root(i) }
+func (r root) kind() int   { return int(r >> 40) }
+func (r root) idx() int    { return int(r & (1<<40 - 1)) }
 func (r root) local() bool { return r.kind() == kL }
 
 var freshRoot = mk(kFresh, 0)
@@ -114,22 +114,23 @@ type fnInfo struct {
 }
 
 type analysis struct {
-	prog      *ssa.Program
-	own       map[string]bool
-	covered   map[string]bool
-	infos     map[*ssa.Function]*fnInfo
-	pseudo    map[string]*fnInfo
-	bodies    []*fnInfo
-	order     []*fnInfo // emitted, callee first
-	globals   map[*ssa.Global]int
-	gnames    []string
-	addrTaken map[string][]*ssa.Function
-	implCache map[string][]*ssa.Function
-	ownTypes  []types.Type
-	ptrCache  map[types.Type]bool
-	changed   bool
-	emitting  bool
-	nEmitted  int
+	prog       *ssa.Program
+	own        map[string]bool
+	covered    map[string]bool
+	infos      map[*ssa.Function]*fnInfo
+	pseudo     map[string]*fnInfo
+	bodies     []*fnInfo
+	order      []*fnInfo // emitted, callee first
+	globals    map[*ssa.Global]int
+	gnames     []string
+	addrTaken  map[string][]*ssa.Function
+	implCache  map[string][]*ssa.Function
+	ownTypes   []types.Type
+	ptrCache   map[types.Type]bool
+	changed    bool
+	dyn        bool // applying a summary at a dynamic call of a function value: parameter effects only
+	emitting   bool
+	nEmitted   int
 	unknownExt map[string]bool
 }
 
@@ -617,6 +618,27 @@ func (a *analysis) storeInto(fi *fnInfo, d root, V rset) bool {
 }
 
 func (a *analysis) step(fi *fnInfo, in ssa.Instruction) bool {
+	ch0 := false
+	if _, isMC := in.(*ssa.MakeClosure); !isMC {
+		var callee ssa.Value
+		if ci, ok := in.(ssa.CallInstruction); ok && !ci.Common().IsInvoke() {
+			callee = ci.Common().Value
+		}
+		for _, op := range in.Operands(nil) {
+			if f, ok := (*op).(*ssa.Function); ok && (*op) != callee && (len(f.Blocks) > 0 || !a.own[pkgPathOf(f)]) {
+				if f.TypeParams().Len() > 0 && len(f.TypeArgs()) == 0 {
+					continue
+				}
+				if a.apply(fi, in, a.info(f), nil, nil, true) {
+					ch0 = true
+				}
+			}
+		}
+	}
+	return a.step1(fi, in) || ch0
+}
+
+func (a *analysis) step1(fi *fnInfo, in ssa.Instruction) bool {
 	switch v := in.(type) {
 	case *ssa.Alloc:
 		return fi.setVal(v, rset{fi.site(v): {}})
@@ -840,12 +862,45 @@ func (a *analysis) doCall(fi *fnInfo, in ssa.Instruction, c *ssa.CallCommon, res
 	// dynamic call of a function value: every address-taken function of the same signature (parameter effects only; the effects of a
 	// closure on its free variables are charged where the closure is made)
 	ch := false
+	a.dyn = true
 	for _, f := range a.addrTaken[sigKey(c.Signature())] {
 		if a.apply(fi, in, a.info(f), A, res, false) {
 			ch = true
 		}
 	}
+	a.dyn = false
 	return ch
+}
+
+// is the interface value certainly an object made by a constructor outside the loaded packages (sha256.New(), bytes.NewReader, ...)?
+func (a *analysis) extOrigin(v ssa.Value, depth int) bool {
+	if depth > 6 {
+		return false
+	}
+	switch v := v.(type) {
+	case *ssa.Call:
+		if f := v.Common().StaticCallee(); f != nil && len(f.Blocks) == 0 && !a.own[pkgPathOf(f)] {
+			return true
+		}
+	case *ssa.MakeInterface:
+		t := v.X.Type()
+		if p, ok := t.(*types.Pointer); ok {
+			t = p.Elem()
+		}
+		if n, ok := t.(*types.Named); ok && n.Obj().Pkg() != nil && !a.own[n.Obj().Pkg().Path()] {
+			return true
+		}
+	case *ssa.ChangeInterface:
+		return a.extOrigin(v.X, depth+1)
+	case *ssa.Phi:
+		for _, e := range v.Edges {
+			if !a.extOrigin(e, depth+1) {
+				return false
+			}
+		}
+		return len(v.Edges) > 0
+	}
+	return false
 }
 
 func (a *analysis) implementations(c *ssa.CallCommon, nargs int) []*fnInfo {
@@ -920,8 +975,12 @@ func (a *analysis) apply(fi *fnInfo, in ssa.Instruction, cf *fnInfo, A []rset, r
 		a.unknownExt[cf.name] = true
 	}
 	for w := range cf.writes {
+		if a.dyn && w.kind() == kG {
+			continue // charged where the function value is made
+		}
 		for r := range bind(w) {
-			if a.addWrite(fi, r, false) {
+			// a dynamic call is recorded as DIRECT writes (the candidate's closed parameter effects through the argument roots)
+			if a.addWrite(fi, r, a.dyn) {
 				ch = true
 			}
 		}
@@ -976,7 +1035,7 @@ func (a *analysis) apply(fi *fnInfo, in ssa.Instruction, cf *fnInfo, A []rset, r
 			}
 		}
 	}
-	if a.emitting {
+	if a.emitting && !a.dyn {
 		am := map[int][]root{}
 		for k := 0; k < len(A) && k < len(cf.ptr); k++ {
 			if !cf.ptr[k] || len(A[k]) == 0 {
@@ -1054,4 +1113,19 @@ func (a *analysis) doBuiltin(fi *fnInfo, in ssa.Instruction, name string, args [
 		}
 	}
 	return ch
+}
+
+func (a *analysis) fmtRoots(fi *fnInfo, s rset) string {
+	var out []string
+	for _, r := range s.sorted() {
+		switch r.kind() {
+		case kPS:
+			out = append(out, fmt.Sprintf("p%d", r.idx()))
+		case kPD:
+			out = append(out, fmt.Sprintf("p%d*", r.idx()))
+		case kG:
+			out = append(out, "@"+a.gnames[r.idx()])
+		}
+	}
+	return "[" + strings.Join(out, " ") + "]"
 }
